@@ -999,12 +999,17 @@ def gen_checking(ev):
     if [a.arg for a in fn.args.args] != ["self", "job_i", "step", "inp_hashes", "env_deps", "step_hash"]:
         raise TranslatorError("validate_dynamic_job signature changed")
     VRET = "(reset, state_set, state, deferred)"
+    vstates = []
+
+    def validate_set_state(m):
+        vstates.append((S[m.group("s")], {"None": "false", "False": "false", "True": "true"}[str(m.group("d"))]))
+        return set_state_rep("")(m)
     t = Table("validate_dynamic_job", [
         ("run, new_hash = await self._new_run(job_i, step, inp_hashes, env_deps)", ""),
         ("return", ("return", VRET)),
         ("await self._outdated_dynamic(run, step_hash, new_hash)", ""),
         ("await self._reset_step_to_pending(step)", "let reset := true in"),
-        (SET_STATE, set_state_rep("")),
+        (SET_STATE, validate_set_state),
         ("self._report_step_counts()", ""),
     ], [], final=VRET, inline_db=True,
         cond_fn=_bool_expr("validate_dynamic_job", {"new_hash is None": "(negb new_run_ok)",
@@ -1015,6 +1020,12 @@ def gen_checking(ev):
                "Definition validate_gen (new_run_ok inp_equal : bool) : bool * bool * N * bool :=\n"
                "  let reset := false in let state_set := false in let state := 0 in let deferred := false in\n  "
                + t.block(body_without_docstring(fn), None) + ".")
+    if len(set(vstates)) != 1:
+        raise TranslatorError(f"validate_dynamic_job: expected exactly one set_state call, found {vstates}")
+    out.append("(* the `deferred` argument of the only set_state call of validate_dynamic_job (the branch taken when\n"
+               "   the input digest is unchanged) *)\n"
+               f"Definition validate_unchanged_state : N := {vstates[0][0]}.\n"
+               f"Definition validate_unchanged_deferred : bool := {vstates[0][1]}.")
 
     # try_skip_job, split at the output hashing (an await during which other actors run)
     fn = find_function(etree, "try_skip_job", "Executor")
